@@ -91,7 +91,9 @@ inductive Emits (cfg : Cfg) (st : St) (e : Event) : Event → Prop where
   | start (tag : QName) (attrs as : AttrList) :
       e = .start tag attrs → st.waiting = none → isSafeElem cfg tag attrs = true →
       sanAttrs cfg attrs = .ok as → Emits cfg st e (.start tag as)
-  | other : st.waiting = none → (∀ t a, e ≠ .start t a) → (∀ c, e ≠ .comment c) → Emits cfg st e e
+  | other : st.waiting = none → (∀ t a, e ≠ .start t a) → (∀ c, e ≠ .comment c) →
+      e ≠ .startCdata → e ≠ .endCdata → (∀ n p s, e = .doctype n p s → dtHasGt n p s = false) →
+      (∀ t d, e = .pi t d → (List.contains t '>' || List.contains d '>') = false) → Emits cfg st e e
 
 theorem step_emits {cfg : Cfg} {st : St} {e : Event} {r : St × Stream} (h : step cfg st e = .ok r) :
     ∀ x ∈ r.2, Emits cfg st e x := by
@@ -117,14 +119,14 @@ theorem step_emits {cfg : Cfg} {st : St} {e : Event} {r : St × Stream} (h : ste
     | none =>
       simp [hw] at h; subst h
       intro x hx; simp at hx; subst hx
-      exact .other hw (by simp) (by simp)
+      exact .other hw (by simp) (by simp) (by simp) (by simp) (by simp) (by simp)
   | comment c => simp [step] at h; subst h; simp
   | text s f =>
     simp [step] at h; subst h
     intro x hx
     simp at hx
     obtain ⟨hw, rfl⟩ := hx
-    exact .other hw (by simp) (by simp)
+    exact .other hw (by simp) (by simp) (by simp) (by simp) (by simp) (by simp)
   | pi t d =>
     unfold step at h
     by_cases hgt : (List.contains t '>' || List.contains d '>') = true
@@ -135,43 +137,38 @@ theorem step_emits {cfg : Cfg} {st : St} {e : Event} {r : St × Stream} (h : ste
       intro x hx
       simp at hx
       obtain ⟨hw, rfl⟩ := hx
-      exact .other hw (by simp) (by simp)
+      exact .other hw (by simp) (by simp) (by simp) (by simp) (by simp) (by simpa using hgt)
   | doctype n p s =>
-    simp [step] at h; subst h
-    intro x hx
-    simp at hx
-    obtain ⟨hw, rfl⟩ := hx
-    exact .other hw (by simp) (by simp)
+    unfold step at h
+    by_cases hgt : dtHasGt n p s = true
+    · simp only [hgt, ↓reduceIte, pure_eq_ok, Except.ok.injEq] at h
+      subst h; simp
+    · simp only [hgt, Bool.false_eq_true, ↓reduceIte, pure_eq_ok, Except.ok.injEq] at h
+      subst h
+      intro x hx
+      simp at hx
+      obtain ⟨hw, rfl⟩ := hx
+      exact .other hw (by simp) (by simp) (by simp) (by simp) (by simpa using hgt) (by simp)
   | xmlDecl v e s =>
     simp [step] at h; subst h
     intro x hx
     simp at hx
     obtain ⟨hw, rfl⟩ := hx
-    exact .other hw (by simp) (by simp)
+    exact .other hw (by simp) (by simp) (by simp) (by simp) (by simp) (by simp)
   | startNs p u =>
     simp [step] at h; subst h
     intro x hx
     simp at hx
     obtain ⟨hw, rfl⟩ := hx
-    exact .other hw (by simp) (by simp)
+    exact .other hw (by simp) (by simp) (by simp) (by simp) (by simp) (by simp)
   | endNs p =>
     simp [step] at h; subst h
     intro x hx
     simp at hx
     obtain ⟨hw, rfl⟩ := hx
-    exact .other hw (by simp) (by simp)
-  | startCdata =>
-    simp [step] at h; subst h
-    intro x hx
-    simp at hx
-    obtain ⟨hw, rfl⟩ := hx
-    exact .other hw (by simp) (by simp)
-  | endCdata =>
-    simp [step] at h; subst h
-    intro x hx
-    simp at hx
-    obtain ⟨hw, rfl⟩ := hx
-    exact .other hw (by simp) (by simp)
+    exact .other hw (by simp) (by simp) (by simp) (by simp) (by simp) (by simp)
+  | startCdata => simp [step] at h; subst h; simp
+  | endCdata => simp [step] at h; subst h; simp
 
 theorem sanitizeFrom_cons {cfg : Cfg} {st : St} {e : Event} {es : Stream} {o : Stream}
     (h : sanitizeFrom cfg st (e :: es) = .ok o) :
